@@ -23,7 +23,7 @@ def run(res):
 
 def _run(res, work):
     broken = []
-    ok, tlog = common.regen_tables()
+    ok, tlog = common.regen_tables("C12")
     if not ok:
         broken.append(("translator", "extraction failed (entry path shapes / site inventory): " +
                        "; ".join(l for l in tlog.splitlines() if "FAILED" in l)[:600], tlog))
